@@ -406,12 +406,10 @@ impl Issuer {
             build_decoys(&mut updated_claims, decoy_count)?;
         }
 
-        let mut rng = rand::thread_rng();
-        let sd_array = updated_claims
-            .get_mut("_sd")
-            .and_then(Value::as_array_mut)
-            .ok_or(Error::InvalidPathPointer)?;
-        sd_array.shuffle(&mut rng);
+        // there is no top-level `_sd` when only nested members or array elements are disclosable
+        if let Some(sd_array) = updated_claims.get_mut("_sd").and_then(Value::as_array_mut) {
+            sd_array.shuffle(&mut rand::thread_rng());
+        }
 
         if !disclosures.is_empty() {
             let algorithm = disclosures[0].get_algorithm().to_string();
@@ -492,10 +490,12 @@ fn build_decoys(claims: &mut Value, decoy_count: i32) -> Result<Vec<Decoy>, Erro
         decoy_list.push(new_decoy);
     }
 
+    let claims = claims.as_object_mut().ok_or(Error::InvalidPathPointer)?;
     let sd_array = claims
-        .get_mut("_sd")
-        .and_then(Value::as_array_mut)
-        .ok_or(Error::InvalidPathPointer)?;
+        .entry("_sd")
+        .or_insert_with(|| Value::Array(Vec::new()))
+        .as_array_mut()
+        .ok_or(Error::InvalidSDType)?;
     decoy_list.iter().for_each(|decoy| {
         sd_array.push(Value::from(decoy.digest().as_str()));
     });
